@@ -222,6 +222,13 @@ func (fr *Frame) applyContract(site ssa.Instruction, fc *FuncContract, key strin
 		ex.assumed["assumed contract: "+shortKey(key)+" ("+relPath(fc.File)+fmt.Sprintf(":%d)", fc.Line)] = true
 	}
 	name := fr.callName[site]
+	if len(fc.Modifies) == 0 && !fc.Pure {
+		for _, e := range fc.Ensures {
+			if strings.Contains(e.Text, "old(") {
+				panic(engineErr("stale-contract", "%s: contract of %s relates pre- and post-state (old) but has no modifies clause; a call site would assume nothing changes", e.where(), shortKey(key)))
+			}
+		}
+	}
 	bind := fr.argBindings(c, args)
 	pre := st.clone()
 	env := &Env{ex: ex, fr: fr, cur: st, old: fr.entry, vars: bind, pkgPath: fc.PkgPath, callerPkg: ex.pkg}
